@@ -80,6 +80,7 @@ class Ctx:
         self.extra = {}
         self.drifts = []
         self.ext = {}
+        self.ext_unmodelled = 0
         self.assumptions = []
         self.rule = ""
         self.exhaustive = None
@@ -143,6 +144,14 @@ class Ctx:
                     t = 0
                 if nreal is None or t <= nreal:  # notes about negative controls are not notes about the code
                     self.drifts.append(s[2:])
+            elif isinstance(s, str) and s.startswith("N "):
+                self.ext_unmodelled += 1
+            elif isinstance(s, str) and s.startswith("E "):
+                # divergence from a part of the specification no listed property covers (spec growth): a NOTE
+                parts = s.split(" ", 2)
+                t = int(parts[1])
+                if nreal is None or t <= nreal:
+                    self.ext_divergence(parts[2], {"trace": _clip_event(events[t - 1])})
             elif isinstance(s, str) and s.startswith("V "):
                 parts = s.split(" ", 2)
                 verdicts[int(parts[1]) - 1] = parts[2] if len(parts) > 2 else "?"
@@ -248,6 +257,8 @@ class Ctx:
             "known_findings_hit": {k: {"what": h["what"], "count": h["count"]} for k, h in self.known_hits.items()},
             "notes": self.notes[:100],
         }
+        if self.ext_unmodelled:
+            cov["extension_not_modelled_cases"] = self.ext_unmodelled
         if self.ext:
             cov["extension_divergences"] = self.ext
             for k, e in sorted(self.ext.items()):
@@ -280,6 +291,20 @@ class Ctx:
         )
         shutil.rmtree(self.work, ignore_errors=True)
         return rc
+
+
+def _clip_event(ev):
+    out = {}
+    for k, v in ev.items():
+        if isinstance(v, list) and len(v) > 64:
+            out[k] = v[:64] + ["...(%d)" % len(v)]
+        elif isinstance(v, str) and len(v) > 600:
+            out[k] = v[:600] + "..."
+        elif isinstance(v, dict):
+            out[k] = "{...}"
+        else:
+            out[k] = v
+    return out
 
 
 def validate_evidence(path):
